@@ -74,6 +74,9 @@ class Builder:
                        "external_members": [], "external_body_members": [], "items": [], "structural": []}
         self.fns = []  # records of functions under contract
         self.canary = False
+        self.auto_extra = {}   # source rel path -> [free fn names pulled in because extracted code calls them]
+        self.skip_pieces = set()  # (fn qualname, piece) contract pieces dropped because they no longer type-check
+        self._auto_done = set()
 
     # ------------------------------------------------------------------ output
     def emit(self, text, kind="unit", **kw):
@@ -224,6 +227,15 @@ class Builder:
                 o["header"] = p[1]
             else:
                 raise ct.ContractError("unknown extract option %s" % p[0])
+        for extra in self.auto_extra.get(rel, []):
+            if (rel, extra) in self._auto_done:
+                continue
+            found = [f for f in rs.find_items(src, m, (0, len(src)), "fn " + extra) if not self._in_cfg_test(src, m, f)]
+            if len(found) == 1:
+                self._auto_done.add((rel, extra))
+                self.report.setdefault("auto_extracted_callees", []).append("%s::%s (new callee without a contract: signature only, callers learn nothing about its result)" % (rel, extra))
+                self.emit_fn(rel, src, m, found[0], [extra], {"external": [], "drop": [], "only": None, "external_body": [extra], "rules": o.get("rules", [])})
+                self.emit("\n", "unit")
         it = self.locate(alias, sel, o["deep"])
         kw = re.match(rs.QUALS + r"(" + rs.ITEM_KW + r")", it.m[it.start:]).group(1)
         self.report["items"].append({"file": rel, "item": rs.norm(sel), "line": rs.line_of(src, it.start)})
@@ -500,7 +512,29 @@ class Builder:
             # ---- mid-body obligations: `assert_after <method>`: a proof assertion right after the statement that
             #      calls `.method(`; `$LET` is the variable that statement binds.  A failed assertion is reported
             #      as its own obligation and is assumed afterwards, so later clauses are judged relative to it.
+            for (meth, ptxt) in c.proofs_after:
+                mm = re.search(r"(?<![A-Za-z0-9_])" + re.escape(meth) + r"\s*\(", m[body[0]:body[1]])
+                if not mm:
+                    self.report.setdefault("lost_assert_anchors", []).append("%s proof after %s(" % (qual, meth))
+                    continue
+                k = rs.match_close(m, body[0] + mm.end() - 1)
+                depth = 0
+                while k < body[1]:
+                    ch = m[k]
+                    if ch in "([{":
+                        depth += 1
+                    elif ch in ")]}":
+                        depth -= 1
+                    elif ch == ";" and depth <= 0:
+                        break
+                    k += 1
+                edits.append(Edit(k + 1, k + 1, [Seg("\n        proof { " + ptxt + " }\n", "contract", file="contracts.vc", fn=qual,
+                                                     clause="proof-hint")]))
             for (meth, cl) in c.asserts:
+                if (qual, "assert#%s" % (cl.label or meth)) in self.skip_pieces:
+                    self.report.setdefault("dropped_contract_pieces", []).append("%s assert#%s (no longer type-checks)" % (qual, cl.label or meth))
+                    fnrec["clauses"].append({"id": "assert#%s" % (cl.label or meth), "kind": "dropped", "tags": cl.tags, "text": cl.text})
+                    continue
                 mm = re.search(r"\.\s*" + re.escape(meth) + r"\s*\(", m[body[0]:body[1]])
                 if not mm:
                     self.report.setdefault("lost_assert_anchors", []).append("%s after .%s(" % (qual, meth))
@@ -548,10 +582,12 @@ class Builder:
                         raise LostAnchor("%s: loop #%d of %s not found" % (rel, n, qual))
                     kwpos, brace = loops[n]
                     segs = []
-                    if lp.invariants:
-                        segs.append(Seg("\n        invariant\n", "contract", fn=qual))
-                        for k, cl in enumerate(lp.invariants):
-                            cid = "loop%d.invariant#%s" % (n, cl.label or str(k))
+                    for kwd, lst in (("invariant_except_break", lp.inv_except_break), ("invariant", lp.invariants), ("ensures", lp.ensures)):
+                        if not lst:
+                            continue
+                        segs.append(Seg("\n        %s\n" % kwd, "contract", fn=qual))
+                        for k, cl in enumerate(lst):
+                            cid = "loop%d.%s#%s" % (n, kwd, cl.label or str(k))
                             segs.append(Seg("            " + cl.text + ",\n", "contract", file="contracts.vc",
                                             line=cl.line, fn=qual, clause=cid))
                             fnrec["clauses"].append({"id": cid, "kind": "invariant", "tags": cl.tags, "text": cl.text})
@@ -568,6 +604,9 @@ class Builder:
                 for ci in cls:
                     bymeth.setdefault(ci[5], []).append(ci)
                 for n, cs in c.closures.items():
+                    if (qual, "closure %s" % n) in self.skip_pieces:
+                        self.report.setdefault("dropped_contract_pieces", []).append("%s closure %s (no longer type-checks)" % (qual, n))
+                        continue
                     if isinstance(n, str):
                         meth, _, idx = n.partition("#")
                         lst = bymeth.get(meth, [])
@@ -581,7 +620,7 @@ class Builder:
                         if n >= len(cls):
                             raise LostAnchor("%s: closure #%d of %s not found" % (rel, n, qual))
                         p0, p1, b0, b1, is_block, _m = cls[n]
-                    segs = [Seg(cs.header, "contract", file="contracts.vc", fn=qual)]
+                    segs = [Seg(cs.header, "contract", file="contracts.vc", fn=qual, clause="closure%s.header" % n)]
                     for kwd, clauses in (("requires", cs.requires), ("ensures", cs.ensures)):
                         if clauses:
                             segs.append(Seg("\n            %s\n" % kwd, "contract", fn=qual))
@@ -616,8 +655,10 @@ class Builder:
         for (p0, p1, b0, b1, is_block, meth) in find_closures(m, body):
             params = m[p0:p1]
             inner = params[params.index("|") + 1:params.rindex("|")]
-            if not re.search(r"[&(]", inner) or ":" in inner:
+            if not (re.search(r"[&(]", inner) or re.search(r"(^|,)\s*_\s*(,|$)", inner)) or ":" in inner:
                 continue
+            if re.match(r"^\s*_\s*$", inner):
+                continue  # rule R3
             parts, depth, cur = [], 0, ""
             for ch in inner:
                 if ch in "([":
@@ -633,7 +674,10 @@ class Builder:
             names, lets = [], []
             for k, pt in enumerate(parts):
                 pt = pt.strip()
-                if re.match(r"^[A-Za-z_][A-Za-z0-9_]*$", pt):
+                if pt == "_":
+                    names.append("_vx_p%d" % k)
+                    lets.append("")
+                elif re.match(r"^[A-Za-z_][A-Za-z0-9_]*$", pt):
                     names.append(pt)
                 elif pt.startswith("&") or pt.startswith("("):
                     names.append("vx_p%d" % k)
